@@ -101,6 +101,9 @@ def _r_term(t, lb, bb, env):
     return r
 
 
+from .known_private import KNOWN_TYPES
+
+
 class Inliner:
     def __init__(self, raws, keep):
         """raws: {body id: raw body dict (with 'crate')} ; keep: predicate(raw) -> True if the function must stay a call"""
@@ -147,9 +150,24 @@ class Inliner:
         g = self.raws.get(gid)
         if g is None or g['kind'] == 'Closure' or g['crate'] != caller['crate']:
             return False
-        if g.get('public') or g['q'].startswith('<') or self.keep(g):
+        if g.get('public') or self.keep(g):
             return False
+        if g['q'].startswith('<'):
+            # a trait impl: an anchor of the rule tables when it is on a type of the reviewed tree; on a type introduced later
+            # (a private helper enum with `From<bool>`, a wrapper with `Display`) it is a helper like any other
+            self_ty = g['q'][1:].split(' as ')[0]
+            return self_ty.startswith(g['crate'] + '::') and '<' not in self_ty and self_ty not in KNOWN_TYPES and not self._all_expanded(g)
         return True
+
+    @staticmethod
+    def _all_expanded(g):
+        flags = []
+        for blk in g['blocks']:
+            if blk.get('cleanup'):
+                continue
+            flags.extend(st.get('exp', True) for st in blk['stmts'] if st['k'] == 'assign')
+            flags.append(blk['term'].get('exp', True))
+        return bool(flags) and all(flags)
 
     # ------------------------------------------------------------------ main entry
     def flat(self, bid, stack=()):
